@@ -26,7 +26,7 @@ RECURSIVE Flat(_)
 Flat(ss) == IF ss = <<>> THEN <<>> ELSE Head(ss) \o Flat(Tail(ss))
 
 St0(cfg) == [cfg |-> cfg, nodes |-> <<>>, pending |-> <<>>, pools |-> <<>>, placed |-> {}, opens |-> <<>>, created |-> <<>>,
-             home |-> {}, optsOf |-> {}, passOf |-> {}, inPass |-> FALSE, sameHome |-> FALSE, nopen |-> 0, nguard |-> 0]
+             home |-> {}, optsOf |-> {}, passOf |-> {}, inPass |-> FALSE, sameHome |-> FALSE, homeStage |-> "-", nopen |-> 0, nguard |-> 0]
 Vs(guard, sigs) == [i \in DOMAIN sigs |-> V(guard, sigs[i])]
 
 TraceInit == l = 1 /\ st = St0(<<>>) /\ viol = <<>> /\ ntr = 0 /\ done = FALSE
@@ -57,7 +57,9 @@ SameHome(nodes, pending, home) ==
 TPassBegin ==
     /\ Ev.e = "PassBegin"
     /\ st' = [st EXCEPT !.nodes = Ev.nodes, !.pending = Ev.pending, !.pools = Ev.pools, !.placed = {}, !.opens = <<>>, !.created = <<>>,
-                        !.inPass = TRUE, !.sameHome = SameHome(Ev.nodes, Ev.pending, st.home)]
+                        !.inPass = TRUE, !.sameHome = SameHome(Ev.nodes, Ev.pending, st.home),
+                        !.homeStage = IF SameHome(Ev.nodes, Ev.pending, st.home)
+                                      THEN Stage(Ev.nodes[NodeByClaim(Ev.nodes, HomeOf(st.home, Ev.pending[1]))]) ELSE "-"]
     /\ UNCHANGED <<viol, ntr>>
 
 \* ---- scheduler decisions (hook H1)
@@ -136,8 +138,7 @@ TPassEnd ==
                 IF ~CreatedIn(pl.pool) THEN <<>>
                 ELSE Vs("G_C03_OpenWithinLimits", SigsWithin(cfg, st.nodes, pl.pool, pl.limits, PendingOpts(pl.pool)))])
          \o (IF Ev.ran /\ st.sameHome /\ G_C04_PassOnlyWhenSynced(st.nodes)
-             THEN Chk(Ev.created = 0 /\ Ev.opens = 0, "Inv_C04_Idempotent",
-                      "home:" \o Stage(st.nodes[NodeByClaim(st.nodes, HomeOf(st.home, st.pending[1]))])) ELSE <<>>)
+             THEN Chk(Ev.created = 0 /\ Ev.opens = 0, "Inv_C04_Idempotent", "home:" \o st.homeStage) ELSE <<>>)
     /\ UNCHANGED ntr
 
 \* ---- pool totals after every step
